@@ -253,7 +253,7 @@ def main(argv=None):
             "seed": a.seed,
             "level": eng.LEVEL[pid] if isinstance(eng.LEVEL, dict) else eng.LEVEL,
             "coverage": cov,
-            "assumptions": eng.ASSUMPTIONS.get(pid, []) if hasattr(eng, "ASSUMPTIONS") else [],
+            "assumptions": (eng.ASSUMPTIONS.get(pid, []) if isinstance(eng.ASSUMPTIONS, dict) else list(eng.ASSUMPTIONS)) if hasattr(eng, "ASSUMPTIONS") else [],
             "wall_s": round(wall, 2),
             "violations": nviol,
         }
